@@ -455,6 +455,9 @@ def run(ctx):
     rep.rule('R10.7', 'the rows are grouped into runs by a sort with Comparable: its < is a strict order and == agrees with it on '
              'every pair of type classes (C04 R4.1 / R4.2 imported), so equal keys are adjacent')
     ctx.attempt(r107, ctx, rep)
+    rep.rule('R10.8', 'the sort that groups the rows into runs is the one C05 decides: run / merge agreement, stable merge, Comparable keys, tuple copies (C05 imported for petl.transform.sorts)')
+    from .common import import_sort_obligations
+    ctx.attempt(import_sort_obligations, ctx, rep, 'R10.8')
 
 
 # ------------------------------------------------------------------------- R10.6 / R10.7
@@ -488,11 +491,12 @@ def r107(ctx, rep):
     try:
         c04.r41(ctx, sub)
         c04.r42(ctx, sub)
+        c04.r46(ctx, sub)
     finally:
         ctx.report = saved
     n = 0
     for o in sub.obligations:
-        if o.module in ('petl.comparison', 'petl.transform.sorts'):
+        if o.module in ('petl.comparison', 'petl.transform.sorts', 'petl.compat'):
             n += 1
             rep.add('R10.7', (o.module, o.qualname), o.construct, o.status, o.message, o.lineno, o.detail)
     if n < 3:
@@ -515,6 +519,16 @@ def _isunique(rep, fn):
     loop = loops[0]
 
     class _M(Machine):
+        def compare(self, op, a, b, st, node):
+            # the items of this stream are *values* of a field: any of them may be None (or any other constant)
+            for x, y in ((a, b), (b, a)):
+                if x[0] == 'row' and x[1] == 'T' and y[0] == 'c' and op in (ast.Is, ast.IsNot, ast.Eq, ast.NotEq):
+                    r = self.atom('value == %r' % (y[1],), st)
+                    if op in (ast.IsNot, ast.NotEq):
+                        r = [(not t, s2) for t, s2 in r]
+                    return r
+            return Machine.compare(self, op, a, b, st, node)
+
         def call(self, e, st):
             f = e.func
             if isinstance(f, ast.Name) and f.id in ('itervalues', 'values') and e.args:
@@ -539,6 +553,10 @@ def _isunique(rep, fn):
                     raise _Bad('end of input', 'when every value has been looked at without a repeat the answer is not True')
                 continue
             seen = [(k, v) for k, v in atoms.items() if ' in bag@' in k]
+            special = [k for k, v in atoms.items() if k.startswith('value == ') and v]
+            if not seen and rec.kind == 'next':
+                raise _Bad('a value that is passed over', 'a value%s is neither looked up among the values seen nor remembered: a '
+                           'repetition of it goes unnoticed' % ((' (%s)' % special[0]) if special else ''))
             if not seen and rec.kind == 'return':
                 raise _Bad('every value', 'the answer %s is given at a value without an open test of whether it was seen before (the '
                            'value is among the remembered ones before the test looks)' % (rec.value[1] if rec.value else None,))
@@ -692,10 +710,17 @@ def r105(ctx, rep):
                     x.iter.func.id == 'zip' and isinstance(x.target, ast.Tuple) and len(x.target.elts) >= 2 and \
                     all(isinstance(t, ast.Name) for t in x.target.elts):
                 sites.append((fn, x))
+            elif isinstance(x, (ast.GeneratorExp, ast.ListComp)) and len(x.generators) == 1 and \
+                    isinstance(x.generators[0].iter, ast.Call) and isinstance(x.generators[0].iter.func, ast.Name) and \
+                    x.generators[0].iter.func.id == 'zip' and isinstance(x.generators[0].target, ast.Tuple) and \
+                    len(x.generators[0].target.elts) >= 2 and all(isinstance(t, ast.Name) for t in x.generators[0].target.elts):
+                sites.append((fn, x))
     if not sites:
         raise AnalysisError('anchor vanished: no loop over the paired cells of two rows in %s' % MOD)
     for fn, loop in sites:
-        xn, yn = loop.target.elts[0].id, loop.target.elts[1].id
+        comp = isinstance(loop, (ast.GeneratorExp, ast.ListComp))
+        tgt = loop.generators[0].target if comp else loop.target
+        xn, yn = tgt.elts[0].id, tgt.elts[1].id
         mname = None
         for c in ast.walk(loop):
             if isinstance(c, ast.Compare) and len(c.ops) == 1 and isinstance(c.ops[0], (ast.In, ast.NotIn)) and \
@@ -714,7 +739,14 @@ def r105(ctx, rep):
             for D in (False, True):
                 val = {mtext: M, '%s == %s' % (xn, yn): not D, '%s == %s' % (yn, xn): not D}
                 flagged = False
-                for pth in paths(loop.body, val, limit=256):
+                if comp:
+                    # any(<test> for x, y, ... in zip(...) if <field filter>): the pair is flagged when the test is true
+                    from ..ladder import tv
+                    r = tv(loop.elt, val)
+                    if r is None:
+                        undec = True
+                    flagged = bool(r)
+                for pth in ([] if comp else paths(loop.body, val, limit=256)):
                     pos = any(isinstance(s, ast.Assign) and isinstance(s.value, ast.Constant) and s.value.value is True
                               for s in pth.effects) or \
                         (pth.kind == 'return' and isinstance(pth.node.value, ast.Constant) and pth.node.value.value is True)
@@ -724,7 +756,9 @@ def r105(ctx, rep):
                 want = (not M) and D
                 if flagged != want:
                     bad.append('missing among the two values: %s, values differ: %s -> %s' % (M, D, 'flagged' if flagged else 'not flagged'))
-        if bad:
+        if undec and not bad:
+            rep.undecided('R10.5', fn, c0, 'the test of the pair is not a function of (marker among the values, values differ)', loop)
+        elif bad:
             rep.violated('R10.5', fn, c0, 'a pair must be flagged exactly when the values differ and neither is `%s`; here: %s'
                          % (mname, '; '.join(bad)), loop)
         else:
